@@ -55,7 +55,7 @@ MUTATIONS = [
     dict(name="scgi-sep-off-by-one", edits=[("src/scgi_api.cpp", "char const *p=&buffer_[sep_ + 1];", "char const *p=&buffer_[sep_ + 1]; if(buffer_.size() > 900) p++;")]),
     # the pushed-back character is lost when it was the first byte of a freshly read buffer (read boundary right after CRLF)
     dict(name="parser-drop-ungetc", edits=[("private/http_parser.h", "\t\t\t\tungetc(c);\n\t\t\t\theader_.resize(header_.size()-2);", "\t\t\t\tif(*body_ptr_ != 1) ungetc(c);\n\t\t\t\theader_.resize(header_.size()-2);")]),
-    dict(name="http-plus-in-path-regression", edits=[("src/http_api.cpp", "env_path_info_ = pool_.add(decode_path(path,path+strlen(path)));", "env_path_info_ = pool_.add(util::urldecode(path,path+strlen(path)));")]),
+    dict(name="http-path-decoded-twice", edits=[("src/http_api.cpp", "env_path_info_ = pool_.add(util::urldecode(path,path+strlen(path)));", "{ std::string once_=util::urldecode(path,path+strlen(path)); env_path_info_ = pool_.add(util::urldecode(once_.c_str(),once_.c_str()+once_.size())); }")]),
     dict(name="http-paren-in-request-line-regression", edits=[("src/http_api.cpp", "\t\t\tinput_parser_.quoting(false);\n", "")]),
     dict(name="fcgi-get-values-fallthrough-regression", edits=[("src/fastcgi_api.cpp", "\t\t\t\t\t\t\t\th));\n\t\t\t\treturn;\n\t\t\t}\n\t\t\telse if(header_.type!=fcgi_begin_request)", "\t\t\t\t\t\t\t\th));\n\t\t\t}\n\t\t\telse if(header_.type!=fcgi_begin_request)")]),
     dict(name="fcgi-nonblocking-record-size", edits=[("src/fastcgi_api.cpp", "if(buffer_size < sizeof(hdr) + hdr.content_length + hdr.padding_length)", "if(buffer_size < sizeof(hdr) + hdr.content_length)")]),
